@@ -80,6 +80,8 @@ def run_differential(prog, script, fail: Callable[[str, Optional[str]], None], c
     nested_regs = nested_reg_measurements(prog)
     t0 = 0
     r0 = 0
+    p0 = 0
+    last_compared = -1
     segs = hl.segments(prog)
     ok = True
     pending_sub = None
@@ -184,6 +186,23 @@ def run_differential(prog, script, fail: Callable[[str, Optional[str]], None], c
                             fail(f"segment {si}: controller register {h.reg} (handle {name}) = {cval} but direct execution gives "
                                  f"{snap['regs'].get(name)}", key)
                             return {"ok": False, "ref": ref}
+                # (6) what was returned to the host in this segment: registers and arrays created (or measured into) in this
+                #     segment, each exactly once - nothing that belongs to an earlier segment is returned again
+                pubs = ex.ret_log[p0:]
+                p0 = len(ex.ret_log)
+                segs_covered = range(last_compared + 1, si + 1)     # (a late commit is judged together with the next segment)
+                last_compared = si
+                got_regs = sorted(r for (_a, kind, r, _v) in pubs if kind == "reg")
+                want_regs = sorted(set().union(*[drv.seg_regs.get(j, set()) for j in segs_covered]))
+                if got_regs != want_regs and not (set(drv.regs) & nested_regs):
+                    fail(f"segment {si}: registers returned to the host {got_regs}, but the registers handed to host handles in this "
+                         f"segment are {want_regs}", None)
+                    return {"ok": False, "ref": ref}
+                got_arrs = sorted(a for (_a, kind, a, _v) in pubs if kind == "arr")
+                want_arrs = sorted(drv.arrays[name].address for name in drv.arrays if drv.created_in_segment.get(name) in segs_covered)
+                if got_arrs != want_arrs:
+                    fail(f"segment {si}: arrays returned to the host @{got_arrs}, but the arrays created in this segment are @{want_arrs}", None)
+                    return {"ok": False, "ref": ref}
                 # (5) quantum state of the live qubits (up to global phase), ordered by host handle
                 live = snap["live"]
                 try:
